@@ -1445,7 +1445,7 @@ pub fn scenario(name: &str, out: &mut Sink) {
     cfg.workers = 1;
     cfg.rollback = true;
     cfg.maxlog = 100;
-    if name == "reopen-resurrects-pruned-delta" || name == "rollback-all-then-reopen" {
+    if name == "reopen-resurrects-pruned-delta" || name == "rollback-all-then-reopen" || name == "rollback-reopen-rollback-reopen" {
         cfg.maxlog = 1;
     }
     if name == "witness-many-workers" {
@@ -1544,6 +1544,25 @@ pub fn scenario(name: &str, out: &mut Sink) {
                 let f = e.session_writes(&[], &ws).unwrap();
                 e.commit_fin(f, false);
             }
+        }
+        // F4c: maxlog 1 — commit, write-free commit, rollback(1), two commits, reopen, rollback(1), reopen:
+        // the log is empty; a further rollback(1) must be refused (before the fix the reopened store
+        // had brought a discarded delta back)
+        "rollback-reopen-rollback-reopen" => {
+            let f = e.session_writes(&[], &[(k(1), v(1))]).unwrap();
+            e.commit_fin(f, false);
+            let f = e.session_writes(&[], &[]).unwrap();
+            e.commit_fin(f, false);
+            e.op_rollback_n(1);
+            let f = e.session_writes(&[], &[(k(1), v(2))]).unwrap();
+            e.commit_fin(f, false);
+            let f = e.session_writes(&[], &[(k(1), None), (k(2), v(3))]).unwrap();
+            e.commit_fin(f, false);
+            e.op_reopen();
+            e.op_rollback_n(1);
+            e.op_reopen();
+            e.op_rollback_n(1);
+            e.read_all("scenario");
         }
         // F6: a rejected overlay commit must not make its descendants look complete
         "rejected-overlay-marks-committed" => {
